@@ -617,7 +617,7 @@ class _ScaleContract(Contract):
         dims = list(env.dims)
         dims[opp] = B.stub(
             "opposing_dimension", subtotals=(env.cols if opp == 1 else env.rows).seq,
-            dimension_type=env.DT.CAT, numeric_values=vseq,
+            dimension_type=(env.cdim if opp == 1 else env.rdim).dimension_type, numeric_values=vseq,
         )
         som = B.stub("second_order_measures", **self.som(B, env, values, cfg))
         obj = B.new("%s:%s" % (MOD, self.cls), tuple(dims), som, env.cube_measures, MO.ROWS if cfg["o"] == "rows" else MO.COLUMNS)
@@ -816,7 +816,7 @@ class SmoothedMeasures(Contract):
         # -- smoothed scale mean = scale mean of the smoothed column proportions
         sm2 = Smoother()
         values = B.tensor("numeric_values", (R,), maybe_nan=True)
-        dims = (B.stub("rows", subtotals=env.rows.seq, dimension_type=env.DT.CAT, numeric_values=B.seq(R, lambda k: B.rd(values, k), "nv")), env.cdim)
+        dims = (B.stub("rows", subtotals=env.rows.seq, dimension_type=env.rdim.dimension_type, numeric_values=B.seq(R, lambda k: B.rd(values, k), "nv")), env.cdim)
         pblocks = spec.proportion_blocks(B, env, env.w, "column")
         som2 = B.stub("second_order_measures", column_proportions=blocks_stub(B, "column_proportions", pblocks))
         sc = B.new("%s:_ScaleMeanSmoothed" % MOD, dims, som2, env.cube_measures, MO.COLUMNS)
@@ -987,7 +987,9 @@ class ComparableCounts(_BlocksContract):
 
         env = self.env(B, cfg)
         obj = B.new("%s:%s" % (MOD, self.cls), env.dims, B.stub("second_order_measures"), env.cube_measures)
-        defined = cfg["cc"] if self.side == "column" else cfg["rc"]
+        # defined iff the dimension summed across is not an array (MR, CA or numeric array)
+        dtype = (env.cdim if self.side == "column" else env.rdim).dimension_type
+        defined = not (dtype in env.DT.ARRAY_TYPES)
         try:
             blocks = obj.blocks
         except ValueError:
@@ -1099,3 +1101,14 @@ class WeightedMedian(Contract):
 
 
 REGISTRY.append(WeightedMedian())
+
+
+# C10 (exchange of the two dimensions) rests on every class-level contract of this module: the
+# row-direction result of a response equals the transposed column-direction result of the
+# exchanged response because each class meets its own spec function and the spec functions
+# are mirror images (contracts/mirror_c.py).  A change that breaks one of a pair of twins
+# fails that class's contract, so each of them is also run by the C10 check.
+for _c in REGISTRY:
+    if (_c.__class__.__module__ == __name__ and "C10" not in _c.props and "lemma." not in _c.name
+            and not any(w in _c.name for w in ('Pairwise', 'Smoothed'))):
+        _c.props = tuple(_c.props) + ("C10",)
